@@ -19,6 +19,8 @@ def histories(ctx):
     # a nested history below a hidden folder and in a folder with an unusual name
     t2 = {"a.txt": b"content of a", ".backup": DIR, ".backup/card": DIR, ".backup/card/c.txt": b"content of c", "d": DIR,
           "d/b.txt": b"content of b", "d/e": DIR, "d/e/c.txt": b"c", "sp ace #1": DIR, "sp ace #1/s.txt": b"s"}
+    # a long history (more than 8, more than 9 chain entries), alternating formats
+    H["flat-11gen"] = ops.build(ctx, T, [c("", [["xxh64"], ["md5"], ["sha1"]][i % 3]) for i in range(11)], expect=[0] * 11)
     H["nested-hidden"] = ops.build(ctx, t2, [c(".backup/card", ["md5"]), c("sp ace #1", ["md5"]), c("", ["xxh64"])], expect=[0, 0, 0])
     return H
 
@@ -123,11 +125,12 @@ def main(tier, seed):
         faults = []
         for p in mans:
             n = len(tree[p])
-            for kind in ("flip", "insert", "delete", "truncate"):
-                for pos in positions(n, tier, kind):
+            long_history = name == "flat-11gen"   # many manifests: a few faults in each of them
+            for kind in ("flip", "truncate") if long_history else ("flip", "insert", "delete", "truncate"):
+                for pos in ([1, n // 2, n - 1] if long_history else positions(n, tier, kind)):
                     faults.append({"path": p, "kind": kind, "pos": pos, "bit": (pos % 8) if kind == "flip" else 0})
             faults.append({"path": p, "kind": "append-newline"})
-            faults += [dict(x, mt=m) for x in list(faults) if x["path"] == p and "mt" not in x
+            faults += [dict(x, mt=m) for x in list(faults) if x["path"] == p and "mt" not in x and not long_history
                        for m in (("older",) if tier == "quick" else ("older", "newer"))
                        if tier == "quick" or x["kind"] != "flip" or x["pos"] % 8 == 0]
             faults.append({"path": p, "kind": "remove"})
@@ -145,7 +148,7 @@ def main(tier, seed):
     for c in cases[:: max(1, len(cases) // 5)]:
         eng.sample({"history": c["name"], "fault": c["faults"][0], "commands": [ops.label(o) for o in c["ops"][:3]] + ["..."]})
     cov = {"evaluations": evals, "distinct_nontrivial": nf, "exhaustive": True, "faults": nf, "histories": sorted(H),
-           "rule": "histories {flat 2 generations, nested 2 levels (2 generations in the parent), nested 3 levels, nested below a hidden folder and in a folder with blanks}; for EVERY manifest "
+           "rule": "histories {flat 11 generations (a few faults per manifest), flat 2 generations, nested 2 levels (2 generations in the parent), nested 3 levels, nested below a hidden folder and in a folder with blanks}; for EVERY manifest "
                    "listed in any chain: bit flip / byte insertion / byte deletion / truncation at positions {0, 1, last, 16 evenly "
                    "spaced} (thorough: a bit flip at every byte position, the others at 64 positions), appended newline, removal; "
                    "every content fault with the tampered file's mtime equal to and older than the chain file's (thorough: also newer); "
